@@ -28,6 +28,12 @@ def seed_identity(seed: int) -> None:
     rng = random.Random(seed ^ 0x1D)
     random.seed(seed)
     uuid.uuid4 = lambda: uuid.UUID(int=rng.getrandbits(128), version=4)
+    import tempfile  # pylint: disable=import-outside-toplevel
+
+    names = tempfile._RandomNameSequence()  # pylint: disable=protected-access
+    names._rng = random.Random(seed ^ 0x7E)  # pylint: disable=protected-access
+    names._rng_pid = os.getpid()  # pylint: disable=protected-access
+    tempfile._name_sequence = names  # pylint: disable=protected-access
 
 
 def fork_run(fn: typing.Callable[..., typing.Any], *args, real_timeout: float = 120.0,
